@@ -374,7 +374,8 @@ Definition cancel_eff (c : hs_case) : option (bool * N) :=
   | None => None
   end.
 
-Definition spec_C14 (c : hs_case) (oo oi : outcome) : bool :=
+(* the clauses about what each side's success rests on and about honest peers (with or without cancellation) *)
+Definition spec_C14_core (c : hs_case) (oo oi : outcome) : bool :=
   (* every success is justified, man in the middle or not *)
   success_sound (k_in c) (k_out c) (k_a1 c) oi &&
   success_sound (k_out c) (k_in c) (k_a2 c) oo &&
@@ -393,6 +394,58 @@ Definition spec_C14 (c : hs_case) (oo oi : outcome) : bool :=
          negb (is_ok oo) && negb (is_ok oi)
      end
    else true).
+
+(* ---- tampered frames: "truncated, oversized, out-of-order or garbage frames end in an error or deadline on both
+   sides, never in success".  Stated over the four frame positions of the exchange
+       1: initiator's credentials   2: responder's credentials   3: initiator's Ack{Null}   4: responder's Ack{Null}
+   and over what the man in the middle puts in the place of frame k (as the receiver of frame k meets it). *)
+(* a frame the reader can take in completely: announced size within the 200 KiB limit, all announced bytes arrive *)
+Definition frame_complete (it : witem) : bool := N.leb (w_size it) size_limit && N.leb (w_size it) (w_avail it).
+(* the kind of frame the protocol has at position k: decodable credentials (1, 2), the acknowledgement Ack{Null} (3, 4) *)
+Definition expected_at (k : N) (it : witem) : bool :=
+  frame_complete it &&
+  (if N.leb k 2
+   then N.eqb (w_type it) T_Cred && match w_body it with BCred _ => true | _ => false end
+   else N.eqb (w_type it) T_Ack && match w_body it with BAck e => N.eqb e E_Null | _ => false end).
+(* the edit of frame k is hostile to the framing: nothing arrives (the stream is cut / runs into the deadline), or what
+   arrives first is oversized, truncated, of a type that does not belong at this position (out of order), undecodable,
+   or an acknowledgement other than Ack{Null} where Ack{Null} belongs *)
+Definition bad_edit (k : N) (a : act) : bool :=
+  match a with
+  | APass => false
+  | AReplace [] _ => true
+  | AReplace (it :: _) _ => negb (expected_at k it)
+  end.
+
+Definition tamper_ok (c : hs_case) (oo oi : outcome) : bool :=
+  match cancel_eff c with
+  | Some _ => true
+  | None =>
+    (* exactly one frame was edited, and the edit is hostile to the framing: frames 1..3 -- NEITHER side reports success
+       (the receiver of the bad frame, and the side that sent the frame that was replaced, which learns it from the error
+       acknowledgement or the closed connection and must never take that for a success) *)
+    (if bad_edit 1 (k_a1 c) && is_pass (k_a2 c) && is_pass (k_a3 c) && is_pass (k_a4 c)
+     then negb (is_ok oo) && negb (is_ok oi) else true) &&
+    (if is_pass (k_a1 c) && bad_edit 2 (k_a2 c) && is_pass (k_a3 c) && is_pass (k_a4 c)
+     then negb (is_ok oo) && negb (is_ok oi) else true) &&
+    (if is_pass (k_a1 c) && is_pass (k_a2 c) && bad_edit 3 (k_a3 c) && is_pass (k_a4 c)
+     then negb (is_ok oo) && negb (is_ok oi) else true) &&
+    (* the LAST frame (4): the responder has returned before the frame travels, so whatever happens to frame 4 (hostile or
+       not) the responder's verdict is the one of the untampered handshake (success iff mutually acceptable); the
+       initiator, who receives the frame, never reports success on a bad one.  (This is the only asymmetry the property
+       can allow: the sender of the last frame cannot learn its fate.) *)
+    (if is_pass (k_a1 c) && is_pass (k_a2 c) && is_pass (k_a3 c) && negb (is_pass (k_a4 c))
+     then Bool.eqb (is_ok oi) (accepts (k_in c) (k_out c) && accepts (k_out c) (k_in c)) &&
+          (if bad_edit 4 (k_a4 c) then negb (is_ok oo) else true)
+     else true) &&
+    (* any further edits notwithstanding: when the frames a side received before were untouched, a bad second frame
+       (3 for the responder, 4 for the initiator) never lets that side succeed *)
+    (if is_pass (k_a1 c) && bad_edit 3 (k_a3 c) then negb (is_ok oi) else true) &&
+    (if is_pass (k_a2 c) && bad_edit 4 (k_a4 c) then negb (is_ok oo) else true)
+  end.
+
+Definition spec_C14 (c : hs_case) (oo oi : outcome) : bool :=
+  spec_C14_core c oo oi && tamper_ok c oo oi.
 
 (* ---------------------------------------------------------------- connection labels over time (sessions)
    What a side attaches to its connection when its handshake returns (peer.CtxIdentity / CtxProtoVersion /
